@@ -98,6 +98,9 @@ def _loose(rest):
         return "%s(%s;%s)" % (m.group(1), m.group(2), ",".join(parts))
     if rest.startswith("["):
         return "[*;*]"
+    m = re.match(r"^(index|split_at|split_at_mut|truncate|insert|insert_str|drain|replace_range|split_off|remove)\(", rest)
+    if m:
+        return m.group(1) + "(*)"
     if "->" in rest:
         return "*->" + rest.rsplit("->", 1)[1]
     return rest
